@@ -64,6 +64,7 @@ class CaseAPI:
         self.symbols = symbols  # name -> z3 const (shared list across paths by name)
         self.covers = set()
         self.info = {}
+        self.size_syms = symbols.setdefault("__sizes__", {}) if isinstance(symbols, dict) else {}
 
     # --- symbolic inputs ---------------------------------------------------------------
     def _reg(self, name, t):
@@ -75,6 +76,13 @@ class CaseAPI:
 
     def real(self, name):
         return VNum(self._reg(name, z3.Real(name)))
+
+    def size(self, name, minimum=1):
+        """a symbolic extent (>= minimum); marked so that `unknown` VCs can be refuted by instantiating it small"""
+        v = self.int(name)
+        self.assume(v.t >= minimum)
+        self.size_syms[name] = v.t
+        return v
 
     def bool(self, name):
         return VBool(self._reg(name, z3.Bool(name)))
@@ -210,6 +218,8 @@ def solve_vc(pc, formula, timeout_ms, symbols):
         m = s.model()
         md = {}
         for n, t in symbols.items():
+            if n == "__sizes__":
+                continue
             try:
                 md[n] = model_value(m, t)
             except Exception as e:  # pragma: no cover
@@ -244,7 +254,86 @@ def solve_vc(pc, formula, timeout_ms, symbols):
     st, _ = cvc5_check(s, timeout_ms)
     if st == "unsat":
         return "unsat", None, time.time() - t0, "cvc5"
+    # refutation by instantiation: a universally quantified VC that fails for concrete small extents is refuted
+    sizes = symbols.get("__sizes__", {})
+    if sizes:
+        md = refute_small(pc, formula, sizes, symbols)
+        if md is not None:
+            return "sat", md, time.time() - t0, "z3-instantiated"
     return "unknown", None, time.time() - t0, "z3+qfnia+cvc5"
+
+
+def _unfold_sums(t, limit=4):
+    """SUM(f, n) with a literal n <= limit  ->  f[0] + ... + f[n-1]"""
+    cache = {}
+
+    def rec(x):
+        i = x.get_id()
+        if i in cache:
+            return cache[i]
+        if z3.is_quantifier(x) or z3.is_var(x):
+            cache[i] = x
+            return x
+        ch = [rec(c) for c in x.children()]
+        r = x
+        if z3.is_app(x):
+            if x.decl().name().startswith("SUM_") and len(ch) == 2:
+                n = z3.simplify(ch[1])
+                if z3.is_int_value(n) and 0 <= n.as_long() <= limit:
+                    zero = z3.RealVal(0) if x.sort() == z3.RealSort() else z3.IntVal(0)
+                    r = zero
+                    for k in range(n.as_long()):
+                        r = r + z3.Select(ch[0], z3.IntVal(k))
+                    cache[i] = z3.simplify(r)
+                    return cache[i]
+            if ch and any(a.get_id() != b.get_id() for a, b in zip(ch, x.children())):
+                try:
+                    r = x.decl()(*ch)
+                except Exception:
+                    r = x
+        cache[i] = r
+        return r
+
+    return rec(t)
+
+
+def refute_small(pc, formula, sizes, symbols, budget_s=40, values=(1, 2, 3)):
+    import itertools
+    t0 = time.time()
+    names = list(sizes)
+    combos = list(itertools.product(values, repeat=len(names)))
+    combos.sort(key=lambda c: (max(c), sum(c)))
+    for combo in combos[:60]:
+        if time.time() - t0 > budget_s:
+            break
+        sub = [(sizes[n], z3.IntVal(v)) for n, v in zip(names, combo)]
+        try:
+            f2 = z3.simplify(z3.substitute(z3.And(*pc, z3.Not(formula)), *sub))
+            for _ in range(4):  # nested reductions appear after beta-reducing the outer ones
+                f3 = z3.simplify(_unfold_sums(f2))
+                if f3.eq(f2):
+                    break
+                f2 = f3
+        except z3.Z3Exception:
+            continue
+        s = z3.Solver()
+        s.set("timeout", 4000)
+        s.add(f2)
+        if s.check() == z3.sat:
+            m = s.model()
+            md = {}
+            for n, t in symbols.items():
+                if n == "__sizes__":
+                    continue
+                try:
+                    md[n] = model_value(m, z3.substitute(t, *sub)) if not isinstance(t, dict) else None
+                except Exception as e:  # pragma: no cover
+                    md[n] = f"<{e}>"
+            for n, v in zip(names, combo):
+                md[n] = v
+            md["__instantiated__"] = dict(zip(names, combo))
+            return md
+    return None
 
 
 def cvc5_check(solver, timeout_ms):
@@ -336,10 +425,6 @@ def run_case(cd: CaseDef, params, case_id):
             for ob in obs:
                 n_paths += 1
                 st, md, dt, backend = solve_vc(ob.pc, ob.formula, cd.solver_timeout, symbols)
-                if st == "unknown" and time.time() - t0 < cd.timeout * 0.7:
-                    # second attempt with a 4x budget (verdicts must not flip to undecided on a busy machine)
-                    st, md, dt2, backend = solve_vc(ob.pc, ob.formula, cd.solver_timeout * 4, symbols)
-                    dt += dt2
                 if st != "unsat" and ob.info.get("_cas") is not None:
                     from . import cas
                     lhs, rhs, asm = ob.info["_cas"]
@@ -350,6 +435,10 @@ def run_case(cd: CaseDef, params, case_id):
                         st, md, backend = "unsat", None, "sympy"
                     else:
                         ob.info["cas_detail"] = why
+                if st == "unknown" and time.time() - t0 < cd.timeout * 0.7:
+                    # second attempt with a 4x budget (verdicts must not flip to undecided on a busy machine)
+                    st, md, dt2, backend = solve_vc(ob.pc, ob.formula, cd.solver_timeout * 4, symbols)
+                    dt += dt2
                 secs += dt
                 be.add(backend)
                 if smt_sample is None:
